@@ -311,6 +311,29 @@ var ifaceAsView = map[string]bool{
 	"github.com/cosmos/cosmos-sdk/store/v2/types.BasicKVStore": true,
 }
 
+func isKVStoreIface(u *types.Interface) bool {
+	need := map[string]bool{"Get": false, "Has": false, "Set": false, "Delete": false}
+	for i := 0; i < u.NumMethods(); i++ {
+		if _, ok := need[u.Method(i).Name()]; ok {
+			need[u.Method(i).Name()] = true
+		}
+	}
+	for _, v := range need {
+		if !v {
+			return false
+		}
+	}
+	return true
+}
+
+func isSentinelErrType(t types.Type) bool {
+	p, ok := types.Unalias(t).Underlying().(*types.Pointer)
+	if !ok {
+		return false
+	}
+	return isNamed(p.Elem(), "cosmossdk.io/errors.Error")
+}
+
 // SortOf maps a Go type to an SMT sort (declaring datatypes as needed).
 func (b *SMT) SortOf(t types.Type) string {
 	t = types.Unalias(t)
@@ -366,6 +389,9 @@ func (b *SMT) SortOf(t types.Type) string {
 	case *types.Map, *types.Chan, *types.Signature:
 		return "Int"
 	case *types.Interface:
+		if isKVStoreIface(u) {
+			return "View"
+		}
 		return "Iface"
 	case *types.Struct:
 		return b.structSort(t, u)
